@@ -193,6 +193,10 @@ func runC18(c *Ctx) {
 			for what, expr := range map[string]string{"value": rc.v, "key": rc.fld} {
 				for _, m := range regexp.MustCompile(`φ:[^:]*:(\d+):(t\d+):(\w+)`).FindAllStringSubmatch(expr, -1) {
 					m = []string{m[0], m[3], m[1], m[2]}
+					if m[1] != "rangeindex" && inductionPhi(rc.we.Run.Fn, m[2], m[3]) {
+						// the counter of an index loop over the parameters (as the hidden index of a range loop is)
+						continue
+					}
 					if m[1] != "rangeindex" && consumingCursor(rc.we.Run.Fn, m[2], m[3]) {
 						// the rest of the text still to be scanned: cut shorter on every round
 						continue
@@ -651,4 +655,55 @@ func consumingCursor(fn *ssa.Function, blk, reg string) bool {
 		visit(e, []step{{ph.Block(), i}}, 0)
 	}
 	return okAll && consumed > 0
+}
+
+
+// inductionPhi: the φ named reg in block blk of fn is an integer loop counter: a constant on the
+// entry edge, itself plus or minus a constant on every back edge.
+func inductionPhi(fn *ssa.Function, blk, reg string) bool {
+	for _, b := range fn.Blocks {
+		if fmt.Sprint(b.Index) != blk {
+			continue
+		}
+		for _, ins := range b.Instrs {
+			ph, ok := ins.(*ssa.Phi)
+			if !ok || ph.Name() != reg {
+				continue
+			}
+			if bt, ok := ph.Type().Underlying().(*types.Basic); !ok || bt.Info()&types.IsInteger == 0 {
+				return false
+			}
+			var loop *loopInfo
+			for _, l := range naturalLoops(fn) {
+				if l.Header == b {
+					loop = l
+				}
+			}
+			if loop == nil {
+				return false
+			}
+			steps := 0
+			for i, e := range ph.Edges {
+				if !loop.Body[b.Preds[i]] {
+					if _, isK := constInt(e); !isK {
+						// start value: a constant or a length minus one (reverse loops)
+						if bo, ok := e.(*ssa.BinOp); !ok || bo.Op != token.SUB {
+							return false
+						}
+					}
+					continue
+				}
+				bo, ok := e.(*ssa.BinOp)
+				if !ok || (bo.Op != token.ADD && bo.Op != token.SUB) || bo.X != ssa.Value(ph) {
+					return false
+				}
+				if _, isK := constInt(bo.Y); !isK {
+					return false
+				}
+				steps++
+			}
+			return steps > 0
+		}
+	}
+	return false
 }
